@@ -180,6 +180,33 @@ func genC03(t *rapid.T) c03Case {
 		}
 		bound["?x"] = true
 	}
+	if rapid.IntRange(0, 9).Draw(t, "notchain?") == 0 {
+		// several candidates go into a `not` whose inside reads the
+		// candidate's bindings (another `not`, a script): each
+		// candidate is judged by itself
+		v1 := rapid.SampledFrom([]string{"x", "y"}).Draw(t, "notchain.v1")
+		v2 := "z"
+		c.Facts = append(c.Facts, M{"a": v1}, M{"a": v2}, M{"b": v1})
+		first := M{"pattern": M{"a": "?x"}}
+		var inner M
+		switch rapid.IntRange(0, 3).Draw(t, "notchain.form") {
+		case 0:
+			inner = M{"not": M{"not": M{"pattern": M{"b": "?x"}}}}
+		case 1:
+			js, _ := json.Marshal(v1)
+			inner = M{"not": M{"code": fmt.Sprintf("x === %s", js), "sem": M{"kind": "eq", "var": "?x", "val": v1}}}
+		case 2:
+			inner = M{"not": M{"and": A{M{"not": M{"pattern": M{"b": "?x"}}}, M{"pattern": M{"a": "?x"}}}}}
+		default:
+			inner = M{"not": M{"pattern": M{"b": "?x"}}}
+		}
+		if len(c.Incoming) > 0 {
+			c.Query = inner
+		} else {
+			c.Query = M{"and": A{first, inner}}
+		}
+		return c
+	}
 	if rapid.IntRange(0, 9).Draw(t, "propchain?") == 0 {
 		// a variable bound by one conjunct and used as a PROPERTY by a
 		// later one: {"sel":"?x"} then {"set":{"?x":"?y"}} (optionally
